@@ -1,9 +1,10 @@
 #!/bin/sh
 # usage: try_alt.sh <patch.diff> <prop> [<prop>...]  -- applies the patch in a scratch worktree of /repo HEAD and runs the
 # quick checks against it (VERIF_REPO), never touching /repo.  The worktree is removed afterwards.
+# BASE=<commit> applies the patch to that commit of /repo instead of HEAD (stored seeds name theirs in meta.json: base_commit).
 diff=$1; shift
 wt=/tmp/alt-$$
-git -C /repo worktree add -q --detach $wt HEAD || exit 2
+git -C /repo worktree add -q --detach $wt ${BASE:-HEAD} || exit 2
 if ! git -C $wt apply "$diff" 2>/dev/null; then echo "PATCH-DOES-NOT-APPLY $diff"; git -C /repo worktree remove --force $wt; exit 3; fi
 for p in "$@"; do
   (cd ${VERIF_ROOT:-/verif} && VERIF_REPO=$wt ./check $p --tier ${TIER:-quick} 2>&1 | grep -E "VIOLATION|KNOWN|TOOL-ERROR|\[done\]" | head -${HEAD:-3})
